@@ -183,7 +183,7 @@ def _local_call(node):
     return "call %s%s" % (fn.split("gamedig::")[-1] if fn.startswith("gamedig::") else fn, "<" + ",".join(ga) + ">" if ga else "")
 
 
-def extract(f, calls=False):
+def extract(f, calls=False, rename=True):
     """-> list of rows {op, via, dest, ctx} for function f (typed HIR)"""
     body = H.body_of(f)
     if body is None:
@@ -378,7 +378,18 @@ def extract(f, calls=False):
             break
     # resolve let-bound locals to struct fields they initialise directly
     uses = _direct_field_uses(body)
+    # alpha-renaming: every binding (parameters, pattern bindings in match arms / closures / for loops) gets a canonical
+    # name by order of introduction, so renaming a variable never changes a trace
     names = {}
+    for i, pp in enumerate(f["hir"].get("params", []) if rename else []):
+        for x, _ in H.walk(pp):
+            if x[0] == "pbind" and x[1]["name"] != "self":
+                names.setdefault(x[1]["name"], "a%d" % i)
+    k_ = 0
+    for x, _ in (H.walk(body) if rename else []):
+        if x[0] == "pbind" and x[1]["name"] != "self" and x[1]["name"] not in names:
+            names[x[1]["name"]] = "b%d" % k_
+            k_ += 1
     for name, ri in binds.items():
         tgt = uses.get(name)
         names[name] = tgt if tgt else "v%d" % ri
